@@ -401,17 +401,17 @@ func StrictFloatLaxEqual[T StrictFloat](left T, right Value) bool {
 	if right.IsReference() {
 		switch r := right.AsReference().(type) {
 		case *BigInt:
-			return T(left) == T(r.ToFloat())
+			return CompareBigIntWithFloat64(r.ToGoBigInt(), float64(left)) == 0
 		case *BigFloat:
-			if r.IsNaN() {
+			if r.IsNaN() || math.IsNaN(float64(left)) {
 				return false
 			}
 			iBigFloat := (&big.Float{}).SetFloat64(float64(left))
 			return iBigFloat.Cmp(r.AsGoBigFloat()) == 0
 		case Int64:
-			return T(left) == T(r)
+			return CompareInt64WithFloat64(int64(r), float64(left)) == 0
 		case UInt64:
-			return T(left) == T(r)
+			return CompareUint64WithFloat64(uint64(r), float64(left)) == 0
 		case Float64:
 			return float64(left) == float64(r)
 		default:
@@ -422,37 +422,37 @@ func StrictFloatLaxEqual[T StrictFloat](left T, right Value) bool {
 	switch right.ValueFlag() {
 	case SMALL_INT_FLAG:
 		r := right.AsSmallInt()
-		return T(left) == T(r)
+		return CompareInt64WithFloat64(int64(r), float64(left)) == 0
 	case FLOAT_FLAG:
 		r := right.AsFloat()
 		return float64(left) == float64(r)
 	case INT64_FLAG:
 		r := right.AsInlineInt64()
-		return T(left) == T(r)
+		return CompareInt64WithFloat64(int64(r), float64(left)) == 0
 	case INT32_FLAG:
 		r := right.AsInt32()
-		return T(left) == T(r)
+		return CompareInt64WithFloat64(int64(r), float64(left)) == 0
 	case INT16_FLAG:
 		r := right.AsInt16()
-		return T(left) == T(r)
+		return CompareInt64WithFloat64(int64(r), float64(left)) == 0
 	case INT8_FLAG:
 		r := right.AsInt8()
-		return T(left) == T(r)
+		return CompareInt64WithFloat64(int64(r), float64(left)) == 0
 	case UINT_FLAG:
 		r := right.AsUInt()
-		return T(left) == T(r)
+		return CompareUint64WithFloat64(uint64(r), float64(left)) == 0
 	case UINT64_FLAG:
 		r := right.AsInlineUInt64()
-		return T(left) == T(r)
+		return CompareUint64WithFloat64(uint64(r), float64(left)) == 0
 	case UINT32_FLAG:
 		r := right.AsUInt32()
-		return T(left) == T(r)
+		return CompareUint64WithFloat64(uint64(r), float64(left)) == 0
 	case UINT16_FLAG:
 		r := right.AsUInt16()
-		return T(left) == T(r)
+		return CompareUint64WithFloat64(uint64(r), float64(left)) == 0
 	case UINT8_FLAG:
 		r := right.AsUInt8()
-		return T(left) == T(r)
+		return CompareUint64WithFloat64(uint64(r), float64(left)) == 0
 	case FLOAT64_FLAG:
 		r := right.AsInlineFloat64()
 		return float64(left) == float64(r)
@@ -489,7 +489,7 @@ func StrictSignedIntLaxEqual[T StrictSignedInt](left T, right Value) bool {
 			}
 			return int64(left) == int64(r)
 		case Float64:
-			return float64(left) == float64(r)
+			return CompareInt64WithFloat64(int64(left), float64(r)) == 0
 		default:
 			return false
 		}
@@ -501,7 +501,7 @@ func StrictSignedIntLaxEqual[T StrictSignedInt](left T, right Value) bool {
 		return int64(left) == int64(r)
 	case FLOAT_FLAG:
 		r := right.AsFloat()
-		return float64(left) == float64(r)
+		return CompareInt64WithFloat64(int64(left), float64(r)) == 0
 	case INT64_FLAG:
 		r := right.AsInlineInt64()
 		return int64(left) == int64(r)
@@ -537,10 +537,10 @@ func StrictSignedIntLaxEqual[T StrictSignedInt](left T, right Value) bool {
 		return int64(left) == int64(r)
 	case FLOAT64_FLAG:
 		r := right.AsInlineFloat64()
-		return float64(left) == float64(r)
+		return CompareInt64WithFloat64(int64(left), float64(r)) == 0
 	case FLOAT32_FLAG:
 		r := right.AsFloat32()
-		return float64(left) == float64(r)
+		return CompareInt64WithFloat64(int64(left), float64(r)) == 0
 	default:
 		return false
 	}
@@ -571,7 +571,7 @@ func StrictUnsignedIntLaxEqual[T StrictUnsignedInt](left T, right Value) bool {
 		case UInt64:
 			return uint64(left) == uint64(r)
 		case Float64:
-			return float64(left) == float64(r)
+			return CompareUint64WithFloat64(uint64(left), float64(r)) == 0
 		default:
 			return false
 		}
@@ -586,7 +586,7 @@ func StrictUnsignedIntLaxEqual[T StrictUnsignedInt](left T, right Value) bool {
 		return int64(left) == int64(r)
 	case FLOAT_FLAG:
 		r := right.AsFloat()
-		return float64(left) == float64(r)
+		return CompareUint64WithFloat64(uint64(left), float64(r)) == 0
 	case INT64_FLAG:
 		r := right.AsInlineInt64()
 		if uint64(left) > math.MaxInt64 {
@@ -628,10 +628,10 @@ func StrictUnsignedIntLaxEqual[T StrictUnsignedInt](left T, right Value) bool {
 		return left == T(r)
 	case FLOAT64_FLAG:
 		r := right.AsInlineFloat64()
-		return float64(left) == float64(r)
+		return CompareUint64WithFloat64(uint64(left), float64(r)) == 0
 	case FLOAT32_FLAG:
 		r := right.AsFloat32()
-		return float64(left) == float64(r)
+		return CompareUint64WithFloat64(uint64(left), float64(r)) == 0
 	default:
 		return false
 	}
